@@ -158,7 +158,7 @@ class Mirror:
 
     def cp(self, s, d, move=False, with_meta=True):
         s, d = tuple(s), tuple(d)
-        if s not in self.nodes or d in self.nodes or not s or not d or d[:len(s)] == s:
+        if s not in self.nodes or d in self.nodes or not s or not d or (move and d[:len(s)] == s):
             return
         sub = {q: k for q, k in self.nodes.items() if q[:len(s)] == s}
         msub = {(q, sc) for (q, sc) in self.meta if q[:len(s)] == s}
@@ -284,17 +284,21 @@ def gen_history(rng, nops: int, p_reserved: float = 0.12) -> List[list]:
             mir.cp(s, d, move=True)
         elif r < 0.62:
             s, d = some_existing(), fresh()
-            if d[:len(s)] == s:
-                continue
+            if rng.random() < 0.12:
+                # a COPY to a place strictly below the source itself grafts a snapshot of the source
+                inner = [list(g) for g in groups if len(g) > len(s) and list(g[:len(s)]) == s]
+                base = rng.choice(inner) if inner and rng.random() < 0.5 else list(s)
+                d = base + [rng.choice(SEGS) for _ in range(1 if rng.random() < 0.5 else 2)]
             wm = rng.random() < 0.4
             op = [rng.choice(["copy", "copy", "copyn"]), cwds, _spell(rng, cwd, s), _spell(rng, cwd, d), wm]
             mir.cp(s, d, with_meta=not wm)
         elif r < 0.70:
             s, dg = some_existing(), list(rng.choice(groups))
             name = [rng.choice(SEGS)] if rng.random() < 0.7 else []
+            own = [list(g) for g in groups if g and list(g[:len(s)]) == s]
+            if own and rng.random() < 0.12:
+                dg = rng.choice(own)        # into the source group itself or one of its sub-groups
             d = dg + (name if name else s[-1:])
-            if d[:len(s)] == s:
-                continue
             wm = rng.random() < 0.4
             op = [rng.choice(["copyinto", "copyinto", "copyinton"]), cwds, _spell(rng, cwd, s), absname(dg), name, wm]
             mir.cp(s, d, with_meta=not wm)
@@ -1156,7 +1160,7 @@ def run(ctx: vlib.Ctx):
         "comparison with h5py.File and IH5Record through MetadorContainer; the TOC bookkeeping (schemas/packages/links "
         "clean-up) is compared only as final raw name sets modulo UUIDs; exception class 'guard' is recognised by the "
         "ValueError message of _guard_path",
-        "not exhibited: copy/move into the source's own subtree or of '/', hard/soft links, ACL flags (C15), deliberate "
+        "not exhibited: MOVE into the source's own subtree (copies below the source itself are generated), copy/move of '/', hard/soft links, ACL flags (C15), deliberate "
         "bypasses (__wrapped__, private attributes, StoredMetadata.node handed out by meta.values()), concurrent access",
     ]
     global PKG
@@ -1257,7 +1261,7 @@ def run(ctx: vlib.Ctx):
     ctx.assumptions += [
         "paths are ASCII, segments other than '.' and '' are kept verbatim by HDF5",
         "one providing package per schema in the environment",
-        "no copy/move into the source's own subtree (h5py detaches the subtree, IH5 does not terminate)",
+        "no MOVE into the source's own subtree (h5py detaches the subtree)",
     ]
     if stats["unreviewed"]:
         ctx.notes.append(f"public members that pass the wrapper but are not in the reviewed lists (probed generically): {sorted(stats['unreviewed'])}")
@@ -1331,6 +1335,13 @@ def pattern_histories() -> List[List[list]]:
                   ["detach", R, "core.person__0.1.0"]]
         h += [["copy", "/", "x", "x2", False], ["move", "/", "a", "e"], ["del", "/", "x"], ["detach", "/", "core.org__0.1.0"]]
         out.append(h)
+    # copies to places strictly below the source itself: new intermediate groups, an existing
+    # sub-group, into the own group object, of a dataset (refused: a dataset is in the way)
+    for wm in (False, True):
+        out.append([list(o) for o in setup] + [["copy", "/", "a", "a/n1/n2", wm], ["copy", "/", "a", "a/b/cp", wm],
+                                                ["copyinto", "/", "a/b", "/a/b", ["in"], wm], ["copyinto", "/", "a", "/a", [], not wm],
+                                                ["copyn", "/", "a", "a/n1/again", wm], ["copy", "/", "x", "x/y", wm], ["copy", "/", "a", "a", wm],
+                                                ["copy", "/a", "b", "b/in/deeper", wm], ["get", "/", "a/n1/n2/b"], ["del", "/", "a"]])
     return out
 
 
